@@ -400,11 +400,13 @@ def get_Pnk(G):
     Pnk = {k1:defaultdict(int)  for k1 in dict(G.degree()).values()}
     Nk = Counter(dict(G.degree()).values())
 
-    for node in G.nodes():
-        k1 = G.degree(node)
-        nbr_degrees = [G.degree(nbr) for nbr in G.neighbors(node)]
-        for k2 in nbr_degrees:
-            Pnk[k1][k2] += 1./(k1*Nk[k1])
+    for u, v in G.edges():
+        #each edge has two ends.  Counting edge ends (rather than distinct 
+        #neighbors) keeps every row summing to 1 when G.degree counts a 
+        #self-loop twice or repeated edges separately.
+        k1, k2 = G.degree(u), G.degree(v)
+        Pnk[k1][k2] += 1./(k1*Nk[k1])
+        Pnk[k2][k1] += 1./(k2*Nk[k2])
     return Pnk
     
     
